@@ -178,9 +178,21 @@ package fingerprint
 //@ func getMaxTime
 //@   modifies heap
 //@   preserves $RUNDATA
+//@   nosite (Time).Truncate                                                                                          [C04,C05]
+//@   nosite (Time).Round                                                                                             [C04,C05]
+//@   nosite (Time).Add                                                                                               [C04,C05]
 //@ func anyFileNewerThan
 //@   modifies heap
 //@   preserves $RUNDATA
+// "newer" is decided on the modification times AS THEY ARE: a source saved after the marker - however little after,
+// within the same second too - is a present fingerprint that has not been attempted yet (no rounding, no tolerance)
+//@   nosite (Time).Truncate                                                                                          [C04,C05]
+//@   nosite (Time).Round                                                                                             [C04,C05]
+//@   nosite (Time).Add                                                                                               [C04,C05]
+//@   nosite (Time).Sub                                                                                               [C04,C05]
+//@   nosite (Time).Unix                                                                                              [C04,C05]
+//@   nosite (Time).Before                                                                                            [C04,C05]
+//@   nosite (Time).Compare                                                                                           [C04,C05]
 //@ ghost var stampSeen bool scratch
 //@ func (*TimestampChecker).IsUpToDate
 // "up to date" needs the record of an attempt that was not a failure: the marker is made when the task is first
